@@ -130,7 +130,11 @@ def main(argv_tier=None, replay_path=None):
         import json
         with open(replay_path) as fh:
             rp = json.load(fh)
-        ev = replay(fx, rp["scheme"], rp["history"], 0)
+        if rp["history"][:1] == ["commands.py"]:
+            import c09_cli
+            ev = c09_cli.run_cli(rp["scheme"], rp.get("cli_k") or 0)
+        else:
+            ev = replay(fx, rp["scheme"], rp["history"], 0)
         verdicts, _ = validate_traces("Trace_ClientSM", [{"tid": "replay", "ev": ev}])
         for e in ev:
             print(e)
@@ -155,6 +159,13 @@ def main(argv_tier=None, replay_path=None):
             cases.append((s, h))
     evs = pmap(lambda a: replay(fx, a[1][0], list(a[1][1]), a[0]), list(enumerate(cases)))
     traces = [{"tid": "w%d" % k, "ev": ev, "scheme": s, "history": list(h)} for (k, (s, h)), ev in zip(enumerate(cases), evs)]
+    # ---- command level: the functions run_client.py calls (aliases, JSON database with hex identifiers, output formats)
+    import c09_cli
+    ncli = 2 if tr == "quick" else 12
+    cli_cases = [(s, j) for s in sc.SCHEMES for j in range(ncli)]
+    cevs = pmap(lambda a: c09_cli.run_cli(a[1][0], a[0] * 7 + a[1][1]), list(enumerate(cli_cases)), nproc=8)
+    for (i, (s, j)), ev in zip(enumerate(cli_cases), cevs):
+        traces.append({"tid": "cli%d" % i, "ev": ev, "scheme": s, "history": ["commands.py"] + [e["op"] for e in ev], "cli_k": i * 7 + j})
     verdicts, agg = validate_traces("Trace_ClientSM", [{"tid": t["tid"], "ev": t["ev"]} for t in traces])
     rej = []
     for t in traces:
@@ -166,7 +177,7 @@ def main(argv_tier=None, replay_path=None):
     for x in viol:
         p = ""
         if len(vio_out) < 20:
-            p = write_replay(PROP, x["trace"]["tid"], {"scheme": x["trace"]["scheme"], "history": x["trace"]["history"],
+            p = write_replay(PROP, x["trace"]["tid"], {"scheme": x["trace"]["scheme"], "history": x["trace"]["history"], "cli_k": x["trace"].get("cli_k"),
                                                        "events": x["trace"]["ev"], "verdict": x["verdict"], "seed": seed()})
         vio_out.append(("%s step %d %s history=%s" % (x["trace"]["scheme"], x["verdict"]["step"], x["verdict"]["clause"],
                                                        ",".join(x["trace"]["history"])), p))
@@ -180,6 +191,7 @@ def main(argv_tier=None, replay_path=None):
         "traces_validated_against_impl": len(traces), "trace_validation_states": agg["distinct"],
         "evaluations": len(traces),
         "distinct_nontrivial": len({(t["scheme"], tuple(t["history"])) for t in traces if any(e["op"] == "search" and e["correct"] for e in t["ev"])}),
+        "command_level_runs": len(cli_cases),
         "placements_in_model": len(hists), "placements_per_scheme": per, "schemes": sc.SCHEMES,
         "rule": "placements of client re-creation (any gap) and server restart (gaps after the index upload) over the documented workflow "
                 "with %d searches (present / absent / present), all %d emitted by TLC from MC_Workflow; %s per scheme, nine schemes; "
